@@ -272,6 +272,112 @@ func (it *Item) Build() fix.Item {
 	panic("bad kind")
 }
 
+// ---- the same objects built the way an application builds group entries from the group's own
+// template: g.AsTemplate() gives a fresh entry, the values are set on it, AddEntry appends it ----
+
+func hasGroup(items []*Item) bool {
+	for _, it := range items {
+		if it.Kind == 'G' || (it.Kind == 'C' && hasGroup(it.Items)) {
+			return true
+		}
+	}
+	return false
+}
+
+// HasGroup reports whether the message contains a repeating group with at least one entry.
+func (m *Msg) HasGroup() bool {
+	var any func(items []*Item) bool
+	any = func(items []*Item) bool {
+		for _, it := range items {
+			if it.Kind == 'G' && len(it.Entries) > 0 {
+				return true
+			}
+			if it.Kind == 'C' && any(it.Items) {
+				return true
+			}
+		}
+		return false
+	}
+	return any(m.Header) || any(m.Body) || any(m.Trailer)
+}
+
+// fill sets the described values on items that came from AsTemplate(); false if the shapes differ.
+func fill(items fix.Items, ds []*Item) bool {
+	if len(items) != len(ds) {
+		return false
+	}
+	for i, d := range ds {
+		switch d.Kind {
+		case 'K':
+			kv, ok := items[i].(*fix.KeyValue)
+			if !ok || kv.Key != d.Tag {
+				return false
+			}
+			kv.Set(d.V.BuildVal())
+		case 'C':
+			c, ok := items[i].(*fix.Component)
+			if !ok || !fill(c.Items(), d.Items) {
+				return false
+			}
+		case 'G':
+			g, ok := items[i].(*fix.Group)
+			if !ok {
+				return false
+			}
+			for _, e := range d.Entries {
+				ne := g.AsTemplate()
+				if !fill(ne, e) {
+					return false
+				}
+				g.AddEntry(ne)
+			}
+		}
+	}
+	return true
+}
+
+func buildItemsVia(items []*Item) ([]fix.Item, bool) {
+	out := make([]fix.Item, len(items))
+	for i, it := range items {
+		switch it.Kind {
+		case 'G':
+			g := fix.NewGroup(it.Tag, BuildItems(it.Tpl)...)
+			for _, e := range it.Entries {
+				ne := g.AsTemplate()
+				if !fill(ne, e) {
+					return nil, false
+				}
+				g.AddEntry(ne)
+			}
+			out[i] = g
+		case 'C':
+			sub, ok := buildItemsVia(it.Items)
+			if !ok {
+				return nil, false
+			}
+			out[i] = fix.NewComponent(sub...)
+		default:
+			out[i] = it.Build()
+		}
+	}
+	return out, true
+}
+
+// BuildViaTemplates builds the message with every group entry obtained from AsTemplate();
+// nil when an entry does not have the shape of its group's template.
+func (m *Msg) BuildViaTemplates() *fix.Message {
+	h, ok1 := buildItemsVia(m.Header)
+	b, ok2 := buildItemsVia(m.Body)
+	t, ok3 := buildItemsVia(m.Trailer)
+	if !(ok1 && ok2 && ok3) {
+		return nil
+	}
+	return fix.NewMessage(m.BsTag, m.BlTag, m.CsTag, m.MtTag, m.Bs, m.Mt).
+		SetHeader(fix.NewComponent(h...)).
+		SetBody(b...).
+		SetTrailer(fix.NewComponent(t...))
+}
+
 func (m *Msg) Build() *fix.Message {
 	return fix.NewMessage(m.BsTag, m.BlTag, m.CsTag, m.MtTag, m.Bs, m.Mt).
 		SetHeader(fix.NewComponent(BuildItems(m.Header)...)).
